@@ -62,8 +62,20 @@ package authenticators
 //@   props C10 C11
 //@   ensures ret1 == nil ==> ival.n > old(ival.n) && ival.ret0[ival.n - 1] == nil
 
+// C11: whatever identity information is used - fetched or taken from the cache - its session
+// lifespan has been examined under the session_lifespan settings of *this* instance in this call
+// (ghost logs csl = CreateSessionLifespan, sla = SessionLifespan.Assert); the cache key (endpoint,
+// authentication data) does not cover these settings.
+//@ func (*SessionLifespanConfig).CreateSessionLifespan
+//@   props C11
+//@   logged csl
+//@ func (*SessionLifespan).Assert
+//@   props C11
+//@   logged sla
 //@ func (*genericAuthenticator).getSubjectInformation
-//@   props C10
+//@   props C10 C11
+//@   ensures ret1 == nil && old(a.sessionLifespanConf) != nil ==> csl.n == old(csl.n) + 1 && csl.arg0[old(csl.n)] == old(a.sessionLifespanConf) && csl.arg1[old(csl.n)] == ret0 && csl.ret1[old(csl.n)] == nil
+//@   ensures ret1 == nil && old(a.sessionLifespanConf) != nil && csl.ret0[old(csl.n)] != nil ==> sla.n == old(sla.n) + 1 && sla.arg0[old(sla.n)] == csl.ret0[old(csl.n)] && sla.ret0[old(sla.n)] == nil
 
 // ---- C01 / C04 / C05: an authenticator that reports success has produced a subject ----
 
